@@ -131,6 +131,17 @@ func (o DLOracle) AfterStep(m *VM, rec *Rec) {
 			m.Violate(o.Prop, "S4-unbounded-call", "Run returned later than the deadline plus every injected stall", fmt.Sprintf("Run returned %q after %d ns of simulated time, limit %d ns, stalls %d ns", rec.Class, elapsed, maxDur, rec.Call.StallNs))
 		}
 	}
+	// ... and bounded lateness in work: once the clock is past the deadline of this call, the call
+	// returns without waiting for its worker to get somewhere. An implementation whose caller polls,
+	// or whose worker polls at every combination, needs a step or two; one that makes the caller
+	// wait for the end of the current rule application needs as many steps as that application has
+	// left, which no duration limit bounds.
+	if rec.Ints["past_deadline"] == 1 && !op.Has("rerun") && !op.Has("incremental") {
+		m.Probe("dl_deadline_passed_during_run")
+		if late := rec.Ints["steps_past_deadline"]; late > 8 {
+			m.Violate(o.Prop, "S4-return-waits-for-worker", "Run returned only after its goroutines were scheduled many more times past the deadline", fmt.Sprintf("Run returned %q %d scheduling steps after the stall that carried the clock past the deadline (limit %d ns, elapsed %d ns)", rec.Class, late, maxDur, elapsed))
+		}
+	}
 	if !wellFormed {
 		m.Probe("dl_ill_formed_program")
 		if rec.Class == "ok" && model.Unbound {
